@@ -325,6 +325,28 @@ void check_vec_single(Vec<T, N> const &a, int const mode, T const k, std::index_
     if (to_arr(s) != r_scale(a, a[0]) || buf != r_scale(a, a[0]) || to_arr(ds) != r_scale(a, a[0]))
       verif::fail("vector::operator*=(scalar)|scalar-aliases-a-component|" + L, what());
   }
+  // the right operand is the object itself: v += v, v *= v (component-wise), v -= v
+  {
+    Vec<T, N> twice = a, sq = a, zero = a;
+    for (std::size_t i = 0; i < N; ++i) { twice[i] = static_cast<T>(a[i] + a[i]); sq[i] = static_cast<T>(a[i] * a[i]); zero[i] = 0; }
+    SV s(make_svec<T, N>(a));
+    s += s;
+    bool ok = to_arr(s) == twice;
+    SV s2(make_svec<T, N>(a));
+    s2 *= s2;
+    ok = ok && to_arr(s2) == sq;
+    SV s3(make_svec<T, N>(a));
+    s3 -= s3;
+    ok = ok && to_arr(s3) == zero;
+    Vec<T, N> buf = a;
+    vvec<T, N> w{view_storage<T, N>(buf.data())};
+    w += w;
+    ok = ok && buf == twice;
+    SD d(make_sdim<T, N>(a));
+    d += d;
+    ok = ok && to_arr(d) == twice;
+    if (!ok) verif::fail("vector::operator+=,-=,*=|operand-is-the-object-itself|" + L, what());
+  }
 }
 
 // ---------------------------------------------------------------- two operands
